@@ -8,6 +8,7 @@ Case lines (integers in decimal, a string is a length-prefixed list of signed ch
   to_string <ty> <cap> <value>              characters + terminator | contract           (ref: std::to_string)
   from_chars[_ovf] <ty> <base> <str>        class, ptr-first, value left in the out arg  (ref: std::from_chars)
   roundtrip <ty> <base> <value>             from_chars(to_chars(v))                      (ref: v)
+  roundtrip_strto <ty> <base> <value>       detail::strto_integer<T>(to_chars(v)): error member, all consumed, value  (ref: v)
   to_integer <ty> <skipws> <plus> <base> <str>    etl API: error, end, value             (model tie only)
   to_integer_nc <ty> <skipws> <plus> <base> <str>  the same with check_overflow = false (wraps / "ub")  (model tie only)
   strtol|strtoll|strtoul|strtoull[_n] <base> <str>   value, end-str                      (ref: glibc)
@@ -29,7 +30,8 @@ UBTRAP = ["-fsanitize=signed-integer-overflow,integer-divide-by-zero", "-fsaniti
 HARNESSES = [
     {"name": "main", "src": "harness.cpp", "flags": ["-O1", "-DTETL_ENABLE_CONTRACT_CHECKS=1"] + UBTRAP},
     {"name": "asan", "src": "harness.cpp",
-     "flags": ["-O1", "-g", "-DVERIF_ASAN=1", "-DTETL_ENABLE_CONTRACT_CHECKS=1", "-fsanitize=address",
+     # -O0 without -g: a third of the compile time of -O1 -g (the variant is rebuilt whenever /repo/include changes)
+     "flags": ["-O0", "-DVERIF_ASAN=1", "-DTETL_ENABLE_CONTRACT_CHECKS=1", "-fsanitize=address",
                "-fno-omit-frame-pointer"] + UBTRAP},
 ]
 
@@ -269,6 +271,14 @@ def gen(tier, rng):
                         continue
                     fmt_cases(ty, v, b, not (wide and b not in (10, 36)), lean=wide and b not in (10, 36))
                     out.append(f"roundtrip {ty} {b} {v}")
+    # ---- the same round trip through strto_integer: every 4th (quick: 12th) formatting pair + the limits
+    rts = [c for c in out if c.startswith("roundtrip ")]
+    step = 12 if quick else 4
+    for k, c in enumerate(rts):
+        t = c.split()
+        lo, hi = lim(t[1])
+        if k % step == 0 or int(t[3]) in (lo, lo + 1, hi - 1, hi, 0, -1):
+            out.append("roundtrip_strto " + " ".join(t[1:]))
     # ---- from_integer (etl API, with and without terminator)
     for ty in ("sc", "uc", "s", "i", "u", "ll", "ull"):
         lo, hi = lim(ty)
